@@ -381,6 +381,8 @@ def c09(run):
         # the clock advances in the middle of calls: a reported instant must be the stored one, not one recomputed
         # from two clock readings
         sched_runs(run, h, ("cache", "cacheof"), "ticks", ("NONLIN", "PREFILL"), quick=(150, 6))
+        # the default TTL is replaced while calls that use it are in flight
+        sched_runs(run, h, ("cache", "cacheof"), "settings", ("EXPIRY",), quick=(150, 6), lin=False)
         trace_cache_runs(run, h, quick=(40, 4), focuses=("", "lazy"))
         if run.tier != "quick":
             # deeper tiers: writers racing resizes as well (re-armed instants must survive a table copy)
@@ -410,6 +412,10 @@ def c12(run):
     lh = with_harness(run, "layout")
     if usable and lh:
         seq_map_runs(run, lh, None, quick=(16, 300))
+    if ch:
+        # the janitor is part of the behaviour the twins must share: every constructor variant of both, with per-item
+        # TTLs under a default that never expires, must clean up (or not) alike
+        R.native_run(run, "janitor_twins", [ch, "janitor"], ["BAD", "panic:"])
     h = with_harness(run, "sched")
     if usable and h:
         # both members of each pair must be linearizable against the same builtin-map / TTL semantics
